@@ -19,9 +19,9 @@ ASSUMPTIONS = ['process table simulated and validated against the real kernel (s
 REQUIRED_FLAGS = {'decoy_placed': 1, 'ignores': 1, 'stopped': 1, 'mid_exit': 1, 'latency_choice': 1}
 
 PTY_OPS = ['isalive', 'kill_term', 'kill_kill', 'terminate', 'terminate_force', 'close', 'close_noforce', 'sendeof',
-           'expect_eof', 'send', 'rnb', 'with_exit', 'del', 'wait']
-FD_OPS = ['isalive', 'close', 'send', 'expect_eof', 'rnb', 'with_exit', 'del']
-DISPOSITIONS = ['normal', 'ignores', 'stopped', 'exited', 'exits-mid']
+           'expect_eof', 'send', 'rnb', 'with_exit', 'del', 'wait', 'closed_logfile']
+FD_OPS = ['isalive', 'close', 'send', 'expect_eof', 'rnb', 'with_exit', 'del', 'closed_logfile']
+DISPOSITIONS = ['normal', 'ignores', 'stopped', 'exited', 'exits-mid']      # + 'peer-closes' (fd/socket), 'kill-esrch' (fault answer)
 
 
 def bounds(tier):
@@ -38,6 +38,9 @@ def tasks(tier):
         out.append(dict(transport='pty-poll', disposition=disp, first=None, tier=tier))
     for tr in ('fd-select', 'socket'):
         out.append(dict(transport=tr, disposition='normal', first=None, tier=tier))
+        out.append(dict(transport=tr, disposition='peer-closes', first=None, tier=tier))
+    for first in ('terminate', 'terminate_force', 'kill_term'):
+        out.append(dict(transport='pty-select', disposition='kill-esrch', first=first, tier=tier))
     return out
 
 
@@ -47,7 +50,7 @@ def run_seq(ch, task, seq):
     obs = {}
     try:
         disp = task['disposition']
-        fate = ('exit', 3) if disp == 'exits-mid' else None
+        fate = ('exit', 3) if disp in ('exits-mid', 'kill-esrch') else None
         r = L.Run(ch, task['transport'], disposition=disp if disp != 'exits-mid' else 'normal',
                   latencies=(0.0, 0.05), fate=fate)
         for op in seq:
